@@ -224,7 +224,12 @@ def bg_correct(raw, bg, df=None):
     if not (raw.shape == bg.shape == df.shape and list(get_spacing(raw)) == list(get_spacing(bg)) == list(get_spacing(df))):
         raise BadImage("raw and background images must have the same shape and spacing")
 
-    holo = (raw - df) / zero_filter(bg - df)
+    def signed(image):
+        # unsigned camera counts wrap around in a difference whenever the
+        # result should be negative
+        return image.astype('float64') if image.dtype.kind == 'u' else image
+
+    holo = (signed(raw) - signed(df)) / zero_filter(signed(bg) - signed(df))
     holo = copy_metadata(raw, holo)
 
     if hasattr(holo, 'noise_sd') and hasattr(bg, 'noise_sd') and holo.noise_sd is None:
